@@ -49,6 +49,35 @@ class _Server:
         self.control = ModbusControlBlock()
 
 
+def real_server(kind, context, framer, ignore_missing, broadcast, loop=None):
+    """the REAL server object of a front-end, built by its own constructor around `context` (bound to an ephemeral
+    loopback port, never served): the handlers below take their settings and the context from it exactly as in
+    production.  Returns (server, closer) or (None, reason)."""
+    fr = framelib.FRAMERS[framer]
+    try:
+        if kind == 'syncTcp':
+            srv = ssync.ModbusTcpServer(context, framer=fr, address=('127.0.0.1', 0), ignore_missing_slaves=ignore_missing,
+                                        broadcast_enable=broadcast)
+            return srv, srv.server_close
+        if kind == 'syncUdp':
+            srv = ssync.ModbusUdpServer(context, framer=fr, address=('127.0.0.1', 0), ignore_missing_slaves=ignore_missing,
+                                        broadcast_enable=broadcast)
+            return srv, srv.server_close
+        if kind in ('aioTcp', 'aioUdp'):
+            cls = saio.ModbusTcpServer if kind == 'aioTcp' else saio.ModbusUdpServer
+            srv = cls(context, framer=fr, address=('127.0.0.1', 0), ignore_missing_slaves=ignore_missing,
+                      broadcast_enable=broadcast, loop=loop)
+
+            def closer():
+                f = getattr(srv, 'server_factory', None)
+                if f is not None and hasattr(f, 'close'):
+                    f.close()       # the never-awaited create_server coroutine
+            return srv, closer
+    except Exception as e:  # noqa
+        return None, '%s: %s' % (type(e).__name__, e)
+    return None, 'no constructor probe for ' + kind
+
+
 class _OneShotSocket:
     """the datagram handlers get (data, socket) once: this is the socket they send through"""
 
@@ -363,17 +392,41 @@ def initial_control(identity=None):
 
 
 class Session:
-    def __init__(self, kind, framer, single, units, ignore_missing, broadcast, identity=None):
+    def __init__(self, kind, framer, single, units, ignore_missing, broadcast, identity=None, late=False):
+        """late=True: the server object is built by the front-end's REAL constructor around a context that hosts NO unit yet
+        (multi-unit contexts), and the units are attached afterwards with `context[u] = ...` — a gateway that learns its
+        units at run time.  What is served afterwards must be what a server built around the full context serves."""
         initial_control(identity)
         self.kind, self.framer, self.units = kind, framer, units
-        self.store, self.blocks = mk_units(single, units)
-        self.srv = _Server(self.store, framer, ignore_missing, broadcast)
         self.ignore_missing = ignore_missing
         self.conns = []
         self.loop = None
+        self.closer = None
+        self.late_note = None
         if kind in ('aioTcp', 'aioUdp'):
             self.loop = asyncio.new_event_loop()
             asyncio.set_event_loop(self.loop)
+        full, self.blocks = mk_units(single, units)
+        if late and not single:
+            self.store = ModbusServerContext(slaves={}, single=False)
+        else:
+            self.store = full
+        self.srv = None
+        if late and kind in ('syncTcp', 'syncUdp', 'aioTcp', 'aioUdp'):
+            self.srv, self.closer = real_server(kind, self.store, framer, ignore_missing, broadcast, self.loop)
+            if self.srv is None:
+                self.late_note, self.closer = self.closer, None
+        if self.srv is None:
+            self.srv = _Server(self.store, framer, ignore_missing, broadcast)
+        self.late_store = self.store
+        if late and kind in ('twistedTcp', 'twistedUdp'):
+            # the Twisted factory / protocol take the store in their constructors: build them now, attach later
+            self.pre = (_TwistedTcpConn if kind == 'twistedTcp' else _TwistedUdpConn)(self.store, framer, ignore_missing)
+        else:
+            self.pre = None
+        if late and not single:
+            for uid, _ in units:
+                self.store[uid] = full[uid]
 
     def open(self):
         k = self.kind
@@ -383,6 +436,8 @@ class Session:
             c = _SyncUdpConn(self.srv)
         elif k in ('aioTcp', 'aioUdp'):
             c = _AioConn(k, self.srv, self.loop)
+        elif self.pre is not None:
+            c, self.pre = self.pre, None
         elif k == 'twistedTcp':
             c = _TwistedTcpConn(self.store, self.framer, self.ignore_missing)
         else:
@@ -411,16 +466,21 @@ class Session:
     def close(self):
         for c in self.conns:
             c.close()
+        if self.closer is not None:
+            try:
+                self.closer()
+            except Exception:  # noqa
+                pass
         if self.loop is not None:
             asyncio.set_event_loop(None)
             self.loop.close()
 
 
-def run_schedule(kind, framer, single, units, ignore_missing, broadcast, nconns, schedule, identity=None):
+def run_schedule(kind, framer, single, units, ignore_missing, broadcast, nconns, schedule, identity=None, late=False):
     """several connections sharing one datastore; schedule = list of (connection index, chunk).
     Returns (per-step written frames, per-step escaped exception kind, final dumps per unit, per-step "the connection is
     still served afterwards")"""
-    s = Session(kind, framer, single, units, ignore_missing, broadcast, identity)
+    s = Session(kind, framer, single, units, ignore_missing, broadcast, identity, late=late)
     try:
         ids = [s.open() for _ in range(nconns)]
         outs, escs, alive = [], [], []
